@@ -91,7 +91,12 @@ func (x *Explorer) Note(key string, n int64) { x.sum.Extra[key] += n }
 // Exec runs one plan, aggregates reach counters and handles violations.
 func (x *Explorer) Exec(plan *Plan) *Result {
 	keep := os.Getenv("VERIF_KEEPLOG_SEED") == fmt.Sprint(plan.Seed)
+	t0 := time.Now()
 	res := x.Prop.Run(x.T, plan, keep)
+	if d := time.Since(t0); d > 2*time.Second {
+		x.sum.Extra["slow_runs_over_2s"]++
+	}
+	res.Extra["wall_us"] = time.Since(t0).Microseconds()
 	if keep {
 		if fh, err := os.OpenFile(os.Getenv("VERIF_DETLOG_FILE")+".log", os.O_APPEND|os.O_CREATE|os.O_WRONLY, 0o644); err == nil {
 			for _, l := range res.Log {
@@ -114,7 +119,7 @@ func (x *Explorer) Exec(plan *Plan) *Result {
 	x.logx += Mix(res.LogHash, 0x10c)
 	if f := os.Getenv("VERIF_DETLOG_FILE"); f != "" {
 		if fh, err := os.OpenFile(f, os.O_APPEND|os.O_CREATE|os.O_WRONLY, 0o644); err == nil {
-			fmt.Fprintf(fh, "%d %v %d %d cut=%v\n", plan.Seed, plan.Swarm, res.LogHash, res.Steps, res.Cut)
+			fmt.Fprintf(fh, "%d %v %d %d cut=%v wall_us=%d faults=%v\n", plan.Seed, plan.Swarm, res.LogHash, res.Steps, res.Cut, res.Extra["wall_us"], plan.Faults)
 			fh.Close()
 		}
 	} // order-insensitive: seeds may be explored in any order
